@@ -105,7 +105,15 @@ func Replay(id, path string) error {
 	if err != nil {
 		return err
 	}
-	return Safe(func() error { return f(data) })
+	// a replayed case may be one that hangs: it is given the same deadline, after which the replay counts as failed
+	done := make(chan error, 1)
+	go func() { done <- Safe(func() error { return f(data) }) }()
+	select {
+	case err := <-done:
+		return err
+	case <-time.After(CaseDeadline):
+		return fmt.Errorf("the call under test did not return within %v", CaseDeadline)
+	}
 }
 
 // Safe converts a panic into an error.
@@ -227,6 +235,15 @@ func (r *Run) Violation(kind string, c interface{}, cause error) {
 	r.violations = append(r.violations, p)
 }
 
+// AbortViolation is for violations after which the process cannot go on (the code under test is stuck in a loop on some
+// goroutine): the replay is saved, the VIOLATION line printed, and the process ends at once - no shrinking, no evidence.
+func (r *Run) AbortViolation(kind string, c interface{}, cause error) {
+	p := r.SaveReplay(kind, c, cause)
+	fmt.Printf("violation (%s): %v\n", kind, cause)
+	fmt.Printf("VIOLATION property=%s replay=%s\n", r.ID, p)
+	os.Exit(1)
+}
+
 // NViolations reports how many violations were recorded so far.
 func (r *Run) NViolations() int {
 	r.mu.Lock()
@@ -296,10 +313,30 @@ func (r *Run) Fail(t *rapid.T, kind string, c interface{}, err error) {
 	t.Fatalf("%s: %v", kind, err)
 }
 
+// CaseDeadline bounds one case: a call into the code under test that has not come back by then never will (cases take
+// microseconds to milliseconds; the slowest sweeps a few seconds).
+const CaseDeadline = 120 * time.Second
+
+// Watched runs f like Safe, with a deadman timer: if f has not returned within CaseDeadline the code under test hangs,
+// which no property allows ("returns ..."); the shard ends at once with that violation (see AbortViolation).
+func (r *Run) Watched(kind string, c interface{}, f func() error) error {
+	defer r.Deadman(kind, c)()
+	return Safe(f)
+}
+
+// Deadman arms the timer for a case that is run by the caller itself (c may be a pointer to a case that is still
+// being completed); the returned function disarms it.
+func (r *Run) Deadman(kind string, c interface{}) (disarm func()) {
+	timer := time.AfterFunc(CaseDeadline, func() {
+		r.AbortViolation(kind+"-hang", c, fmt.Errorf("the call under test did not return within %v", CaseDeadline))
+	})
+	return func() { timer.Stop() }
+}
+
 // Check evaluates check(c) converting panics to errors; known findings are reported and
 // swallowed; any other error fails the rapid run with a replay.
 func (r *Run) Check(t *rapid.T, kind string, c interface{}, check func() error) {
-	err := Safe(check)
+	err := r.Watched(kind, c, check)
 	if err == nil {
 		return
 	}
@@ -312,7 +349,7 @@ func (r *Run) Check(t *rapid.T, kind string, c interface{}, check func() error) 
 
 // CheckSweep is Check for enumerations (no rapid): returns false on a violation.
 func (r *Run) CheckSweep(kind string, c interface{}, check func() error) bool {
-	err := Safe(check)
+	err := r.Watched(kind, c, check)
 	if err == nil {
 		return true
 	}
